@@ -145,7 +145,7 @@ theorem runLoop_ok {b : Nat} {fwd : Bool} {s : State} (hd : DataOK prog V s)
         | true => exact ⟨⟨hA2, hb, hd' _⟩, ⟨hA1, hb, hd' _⟩⟩
         | false => exact ⟨⟨hA1, hb, hd' _⟩, ⟨hA2, hb, hd' _⟩⟩
 
-theorem lookArm_ok {Pre : State → Bool → Prop} {look : Runner} (hl : LookOK prog A V Pre look)
+theorem lookArm_okS {Pre : State → Bool → Prop} {look : Runner} (hl : LookOK prog A V Pre look)
     {b : Nat} {fwd : Bool} {s : State}
     (h : SOK prog A V b fwd s) (d neg : Bool) (k : Nat) (hA1 : A d (s.ip + 1) s.pos)
     (hAk : A fwd k s.pos) (hpre : Pre { s with ip := s.ip + 1 } d) (steps peak : Nat) :
@@ -320,10 +320,10 @@ theorem tms_simple (hs : Spec prog inp A V) (hw : wfProg prog = true)
         apply scmArm_ok hS
         exact ⟨_, rfl, fun p hp => hs.backref hA hi hrs.1 hrs.2 hp⟩
   | lookahead neg sg eg k =>
-    exact lookArm_ok hl hS true neg k ((hs.look hA).1 hi) (hctrl _ (by simp [ctrlSuccs]))
+    exact lookArm_okS hl hS true neg k ((hs.look hA).1 hi) (hctrl _ (by simp [ctrlSuccs]))
       ((hpre neg sg eg k).1 rfl) steps peak
   | lookbehind neg sg eg k =>
-    exact lookArm_ok hl hS false neg k ((hs.look hA).2 hi) (hctrl _ (by simp [ctrlSuccs]))
+    exact lookArm_okS hl hS false neg k ((hs.look hA).2 hi) (hctrl _ (by simp [ctrlSuccs]))
       ((hpre neg sg eg k).2 rfl) steps peak
   | enterLoop id mn mx gr exit =>
     simp only [wfInsn, Bool.and_eq_true, decide_eq_true_eq] at hwi
@@ -582,22 +582,22 @@ end Inv
 /-! ## Frame and ordering of the capture ranges for the PikeVM -/
 
 section FO
-open Regress.VM.Bt (Region InR GInR RClosed rclosed_spec lookConfined lookConfined_spec AgreeOut)
+open Regress.VM.Bt (SRegion InR GInR RClosed rclosed_spec lookConfined lookConfined_spec AgreeOut)
 
 variable {prog : Prog} {inp : Input} (c : OrdCert)
 
 /-- The frame/ordering facts about one thread of a run in region `R` started with the groups `G0`. -/
-def TOK (R : Option Region) (G0 : Array GroupData) (fwd : Bool) (s : State) : Prop :=
+def TOK (R : Option SRegion) (G0 : Array GroupData) (fwd : Bool) (s : State) : Prop :=
   InR R s.ip ∧ AgreeOut R s.groups G0 ∧ OrdAt c fwd s.ip s.pos s.groups
 
-def PFO (R : Option Region) (G0 : Array GroupData) (fwd : Bool) : SM → Prop
+def PFO (R : Option SRegion) (G0 : Array GroupData) (fwd : Bool) : SM → Prop
   | .cont s' _ _ => TOK c R G0 fwd s'
   | .split s1 s2 _ _ => TOK c R G0 fwd s1 ∧ TOK c R G0 fwd s2
   | .complete s' _ _ => TOK c R G0 fwd s'
   | _ => True
 
 /-- Frame/ordering post-condition of a (nested) attempt. -/
-def PkPostFO (R : Option Region) (G0 : Array GroupData) : Outcome → Prop
+def PkPostFO (R : Option SRegion) (G0 : Array GroupData) : Outcome → Prop
   | .matched _ st _ _ =>
     AgreeOut R st.groups G0 ∧ ∀ (g : Nat) (gd : GroupData), st.groups[g]? = some gd → Ordered gd
   | _ => True
@@ -619,7 +619,7 @@ def Plain (prog : Prog) (fwd : Bool) (s : State) (insn : Insn) : SM → Prop
 
 variable {c}
 
-theorem TOK.plain (hchk : checkOrd prog c = true) {R : Option Region} (hc : RClosed prog R)
+theorem TOK.plain (hchk : checkOrd prog c = true) {R : Option SRegion} (hc : RClosed prog R)
     {G0 : Array GroupData} {fwd : Bool} {s : State} (h : TOK c R G0 fwd s) {insn : Insn}
     (hi : prog.insns[s.ip]? = some insn) (hgo : groupOf insn = none)
     (hl : ∀ neg sg eg k, insn ≠ .lookahead neg sg eg k ∧ insn ≠ .lookbehind neg sg eg k)
@@ -633,7 +633,7 @@ theorem TOK.plain (hchk : checkOrd prog c = true) {R : Option Region} (hc : RClo
   rw [hg]
   exact ⟨vt, hvt, (hvec.mono hm).weaken hw⟩
 
-theorem PFO.of_plain (hchk : checkOrd prog c = true) {R : Option Region} (hc : RClosed prog R)
+theorem PFO.of_plain (hchk : checkOrd prog c = true) {R : Option SRegion} (hc : RClosed prog R)
     {G0 : Array GroupData} {fwd : Bool} {s : State} (h : TOK c R G0 fwd s) {insn : Insn}
     (hi : prog.insns[s.ip]? = some insn) (hgo : groupOf insn = none)
     (hl : ∀ neg sg eg k, insn ≠ .lookahead neg sg eg k ∧ insn ≠ .lookbehind neg sg eg k)
@@ -711,7 +711,7 @@ theorem runLoop_plain {fwd : Bool} {s s0 : State} {insn : Insn} (hg : s0.groups 
           | true => exact ⟨⟨hg, h2, hm⟩, ⟨hg, h1, hm⟩⟩
           | false => exact ⟨⟨hg, h1, hm⟩, ⟨hg, h2, hm⟩⟩
 
-theorem groupArm_fo (hchk : checkOrd prog c = true) {R : Option Region} (hc : RClosed prog R)
+theorem groupArm_fo (hchk : checkOrd prog c = true) {R : Option SRegion} (hc : RClosed prog R)
     {G0 : Array GroupData} {fwd : Bool} {s : State} (h : TOK c R G0 fwd s) {insn : Insn}
     (hi : prog.insns[s.ip]? = some insn) {g : Nat} (hgo : groupOf insn = some g)
     (upd : GroupData → GroupData) (ka : Nat) (hout : ∀ v, outVec insn v = v.setIfInBounds g ka)
@@ -739,7 +739,7 @@ theorem groupArm_fo (hchk : checkOrd prog c = true) {R : Option Region} (hc : RC
     exact hag.2 g' hgn
 
 theorem lookArm_fo (hchk : checkOrd prog c = true) (hlc : lookConfined prog = true)
-    {R : Option Region} (hc : RClosed prog R) {G0 : Array GroupData} {fwd : Bool} {s : State}
+    {R : Option SRegion} (hc : RClosed prog R) {G0 : Array GroupData} {fwd : Bool} {s : State}
     (h : TOK c R G0 fwd s) {insn : Insn} (hi : prog.insns[s.ip]? = some insn) {look : Runner}
     {Pre : State → Bool → Prop} (hl : LookFO prog c Pre look) (d neg : Bool) (sg eg k : Nat)
     (hins : insn = .lookahead neg sg eg k ∨ insn = .lookbehind neg sg eg k)
@@ -866,7 +866,7 @@ theorem tms_plain {look : Runner} {fwd : Bool} {s : State} {insn : Insn}
   | loop1 mn mx g => exact absurd rfl (hnl mn mx g)
 
 theorem tms_fo_simple (hchk : checkOrd prog c = true) (hlc : lookConfined prog = true)
-    {R : Option Region} (hc : RClosed prog R) {G0 : Array GroupData} {fwd : Bool} {s : State}
+    {R : Option SRegion} (hc : RClosed prog R) {G0 : Array GroupData} {fwd : Bool} {s : State}
     (h : TOK c R G0 fwd s) {insn : Insn} (hi : prog.insns[s.ip]? = some insn)
     (hnl : ∀ mn mx g, insn ≠ .loop1 mn mx g) {look : Runner} {Pre : State → Bool → Prop}
     (hl : LookFO prog c Pre look)
@@ -906,7 +906,7 @@ theorem tms_fo_simple (hchk : checkOrd prog c = true) (hlc : lookConfined prog =
       (tms_plain hi rfl (fun _ _ _ _ => ⟨by simp, by simp⟩) hnl (by simp) d steps peak)
 
 theorem tms_fo_loop1 (hchk : checkOrd prog c = true) (hw : wfProg prog = true)
-    {R : Option Region} (hc : RClosed prog R) {G0 : Array GroupData} {fwd : Bool} {s : State}
+    {R : Option SRegion} (hc : RClosed prog R) {G0 : Array GroupData} {fwd : Bool} {s : State}
     (h : TOK c R G0 fwd s) {mn : Nat} {mx : Option Nat} {g : Bool}
     (hi : prog.insns[s.ip]? = some (.loop1 mn mx g)) {look : Runner} (d steps peak : Nat) :
     PFO c R G0 fwd (tryMatchState prog inp look (d + 2) s fwd steps peak) := by
@@ -1000,7 +1000,7 @@ theorem tms_fo_loop1 (hchk : checkOrd prog c = true) (hw : wfProg prog = true)
       exact hfin none _ st pk hin rfl rfl (fun p hp => by cases hp)
 
 theorem tms_fo (hchk : checkOrd prog c = true) (hw : wfProg prog = true)
-    (hlc : lookConfined prog = true) {R : Option Region} (hc : RClosed prog R)
+    (hlc : lookConfined prog = true) {R : Option SRegion} (hc : RClosed prog R)
     {G0 : Array GroupData} {fwd : Bool} {s : State} (h : TOK c R G0 fwd s)
     (hlt : s.ip < prog.insns.size) {look : Runner} {Pre : State → Bool → Prop}
     (hl : LookFO prog c Pre look)
@@ -1028,7 +1028,7 @@ def NestPre (prog : Prog) (c : OrdCert) (s0 : State) (d : Bool) : Prop :=
   ∃ R', RClosed prog (some R') ∧ InR (some R') s0.ip ∧ OrdAt c d s0.ip s0.pos s0.groups
 
 theorem nestPre_of_tok (hchk : checkOrd prog c = true) (hlc : lookConfined prog = true)
-    {R : Option Region} {G0 : Array GroupData} {fwd : Bool} {s : State} (h : TOK c R G0 fwd s)
+    {R : Option SRegion} {G0 : Array GroupData} {fwd : Bool} {s : State} (h : TOK c R G0 fwd s)
     {insn : Insn} (hi : prog.insns[s.ip]? = some insn) {neg : Bool} {sg eg k : Nat}
     (hins : insn = .lookahead neg sg eg k ∨ insn = .lookbehind neg sg eg k) (d : Bool) :
     NestPre prog c { s with ip := s.ip + 1 } d := by
@@ -1039,14 +1039,14 @@ theorem nestPre_of_tok (hchk : checkOrd prog c = true) (hlc : lookConfined prog 
   obtain ⟨vb, hvb, hwb⟩ := (checkOrd_spec hchk hi hv).2.2 _ _ hedge
   exact ⟨⟨s.ip + 1, k, sg, eg⟩, hc', ⟨Nat.le_refl _, hlt⟩, ⟨vb, hvb, hvec.lookBody.weaken hwb⟩⟩
 
-abbrev PGhost := Nat × (Option Region × Array GroupData)
+abbrev PGhost := Nat × (Option SRegion × Array GroupData)
 
 /-- The total invariant of one thread. -/
 def PT (prog : Prog) (A : Bool → Nat → Nat → Prop) (V : Nat → Prop) (c : OrdCert) (γ : PGhost)
     (fwd : Bool) (s : State) : Prop :=
   SOK prog A V γ.1 fwd s ∧ TOK c γ.2.1 γ.2.2 fwd s
 
-theorem pkIcaseOrdered_of_tok {R : Option Region} {G0 : Array GroupData} {fwd : Bool} {s : State}
+theorem pkIcaseOrdered_of_tok {R : Option SRegion} {G0 : Array GroupData} {fwd : Bool} {s : State}
     (h : TOK c R G0 fwd s) : PkIcaseOrdered prog s := by
   intro g gd rs re _ hg hr
   obtain ⟨_, _, ⟨v, _, hvec⟩⟩ := h
